@@ -95,7 +95,7 @@ INFO = {
                 "introduces a space plus marks/spaces/multi-byte letters, all strings up to length 5 / 7 over 9 "
                 "representatives, all sequences of up to 4 / 5 block-level symbols, runs of 0-70 combining marks, long inputs at "
                 "power-of-two byte offsets, owned arguments, history pollution, random nicknames. The histogram 'accepted-after-k-applications' shows how deep the "
-                "iteration was driven. Non-trivial = distinct inputs needing >= 2 applications (accepted or rejected later).",
+                "iteration was driven. the error of the first application is pinned; for a string rejected by a re-application any typed error is accepted (the statement says 'is rejected'); Non-trivial = distinct inputs needing >= 2 applications (accepted or rejected later).",
         "floor_quick": 20000,
         "technique": T_MODEL,
         "assumptions": COMMON,
@@ -109,7 +109,7 @@ INFO = {
                 "members of equal byte length are written one after the other into one reused buffer (as first and as second operand, instance and static form) and must give the results of their content; "
                 "every scalar value is swept in four cased contexts (A+c / a+lower(c), c+A / upper(c)+a, 'Team 3c4' / 'team 3c4', c / lower(c) / upper(c)) through the same checks; the recorded "
                 "matrix is checked for reflexivity on accepted strings, symmetry (errors may differ only in which), transitivity over all triples. "
-                "Non-trivial = distinct pairs of different strings with Ok(true), or with exactly one side rejected.",
+                "for an operand rejected by a re-application of the nickname rules any typed error is accepted; Non-trivial = distinct pairs of different strings with Ok(true), or with exactly one side rejected.",
         "floor_quick": 20000,
         "technique": "runtime monitoring: reference-model oracle plus relational (equivalence) monitors over recorded result matrices",
         "assumptions": COMMON,
@@ -222,7 +222,7 @@ INFO = {
                 "random and input-major order. Phase E runs long homogeneous workloads (all ASCII, Latin-1, CJK, right-to-left, errors only ...) in single-threaded "
                 "processes, each followed by the whole case list (adaptive modes). Phase D hammers few inputs that differ in one code point (congruent modulo "
                 "64..65536, different derived property) from 8-32 threads. The racer program is also run "
-                "under ThreadSanitizer (both tiers) and under Miri with many schedule seeds (thorough). phase A2: the string one profile has just produced is enforced by another profile as the very next call, again after unrelated calls and on a helper thread - the three results must agree; Non-trivial = "
+                "under ThreadSanitizer (both tiers) and under Miri with many schedule seeds (thorough). phase A2: the string one profile has just produced is enforced by another profile as the very next call, again after unrelated calls and on a helper thread - the three results must agree; phase A3: two contents of equal byte length processed one after the other from the same buffer must give the results of a copy at another address; Non-trivial = "
                 "distinct accepted-and-changed (profile, op, input) in phase A plus distinct child processes (histories / "
                 "schedules) in phases B/C and sanitizer runs.",
         "floor_quick": 1000,
@@ -237,7 +237,7 @@ INFO = {
                 "inserted, beyond U+10FFFF, broken or unknown property, 'or' without operands, wrong separator, empty line, long multi-byte text in the code point or property column) "
                 "must give Err with the 1-based line number; reversed ranges / lower-case hex only for 'no panic'; a 70,000-row "
                 "file (line numbers beyond 65,535) with rows of up to 290 KB; code point fields of 9-16 hex digits; the "
-                "registry snapshot itself row by row against the own parser. Descriptions read through the line parser are compared up to their line terminator (kept or stripped); for a line that is not UTF-8 an error with no or with the right line number is accepted. Non-trivial = distinct lines / files.",
+                "registry snapshot itself row by row against the own parser. Descriptions read through the line parser are compared up to their line terminator (kept or stripped); for a line that is not UTF-8 an error with no or with the right line number is accepted. blanks or tabs around the code point or property field: rejected, or accepted with exactly the spelled values (blanks inside a field, signs and prefixes are malformed); Non-trivial = distinct lines / files.",
         "floor_quick": 100000,
         "technique": "runtime monitoring: round-trip oracle over generated well-formed rows and negative oracle over damaged rows",
         "assumptions": COMMON,
